@@ -718,7 +718,7 @@ func looksLikeCommand(b []byte) bool {
 
 func body(w *hx.W) {
 	rng := w.Rand("c18")
-	n := w.Pick(1200, 30000)
+	n := w.Pick(1200, 15000)
 	for i := 0; i < n; i++ {
 		cfg := cfgs[i%len(cfgs)]
 		if hangs >= 5 {
